@@ -139,6 +139,14 @@ def appendWithin (h : Heap) (o : Obj) (vals : List Int) : Except PyErr (Heap × 
   if o.start + o.count + rows > o.rows then .error .ValueError    -- would need to grow: not this operation
   else .ok (writeMany h o.buf ((o.start + o.count) * o.ncols) vals, { o with count := o.count + rows })
 
+/-- `append(values)` in general: grow the buffer in place first when the capacity does not suffice (only the owner of a
+    whole array can; NumPy refuses to resize a view) -/
+def appendGrow (h : Heap) (o : Obj) (vals : List Int) : Except PyErr (Heap × Obj) :=
+  let need := o.start + o.count + rowsOf o.ncols vals.length
+  match grow h o need with
+  | .error e => .error e
+  | .ok (h1, o1) => appendWithin h1 o1 vals
+
 /-! ### copy rule for extended properties / timestamps -/
 
 /-- `if copy_flag or not isinstance(arg, Shareable): fresh copy else: the same object` -/
@@ -210,6 +218,17 @@ def step (s : St) : List String → Option (St × String)
       | .ok (h, o') => some ({ s with heap := h }.setObj w o', "ok " ++ showRef o'.view)
       | .error e => some (s, errText e)
     | _, _ => none
+  | ["appendg", w, vals] =>
+    match s.obj w, ints vals with
+    | some o, some v =>
+      match appendGrow s.heap o v with
+      | .ok (h, o') => some ({ s with heap := h }.setObj w o', "ok " ++ showRef o'.view)
+      | .error e => some (s, errText e)
+    | _, _ => none
+  | ["bufref", n, w] =>
+    -- the caller's array object *is* the buffer the object holds (it was adopted): after an in-place resize the
+    -- caller's name denotes the grown array
+    (s.obj w).map fun o => (s.setRef n o.buf, "ok " ++ showRef o.buf)
   | ["wref", r, k, v] =>
     match s.ref r, k.toNat?, v.toInt? with
     | some r', some k', some v' => some ({ s with heap := wr s.heap r' k' v' }, "ok")
